@@ -500,6 +500,16 @@ Section Codec.
     unfold push_file, file_descriptor. simpl. rewrite digest_eqb_refl, N.eqb_refl. reflexivity.
   Qed.
 
+  (* the descriptor of a plain file has no mode: a 0755 file comes back 0644 under umask 022 *)
+  Theorem plain_file_mode_refuted nm content :
+    exists m m', m <= 511 /\
+      push_file digest H digest_eqb 18 (file_descriptor digest H nm content) content = Ok (NFile content m') /\
+      m' <> N.ldiff m 18.
+  Proof.
+    exists 493, (N.ldiff 438 18). split; [vm_compute; discriminate|]. split; [apply file_roundtrip|].
+    vm_compute. discriminate.
+  Qed.
+
   Theorem file_push_verified umask d blob n :
     push_file digest H digest_eqb umask d blob = Ok n ->
     H blob = d_digest digest d /\ N.of_nat (length blob) = d_size digest d /\
